@@ -113,6 +113,43 @@ TuckerDense(in) ==
 TuckerSeq(in) ==
     LET S[k \in 0..Len(in.fs)] == IF k = 0 THEN in.core ELSE ModeDot(S[k - 1], in.fs[k], k - 1)
     IN  S[Len(in.fs)]
+\* ---- the documented options of tucker_to_tensor / tucker_to_unfolded / tucker_to_vec.
+\*   skip   : -1, or the 0-based position IN THE FACTOR LIST of a factor that is left out (its mode keeps the core's size)
+\*   tr     : transpose_factors -- factor F (I x r) is applied as F^T, contracting ITS ROWS with the core mode
+\*   modes  : <<>> (factor j acts on mode j), or the 0-based modes the listed factors act on (tucker_to_tensor only)
+\* All three views (dense, unfolded(m), vec) under an option are views of this ONE tensor.
+OptPos(in, modes) == IF modes = <<>> THEN [j \in 1..Len(in.fs) |-> j] ELSE [j \in 1..Len(modes) |-> modes[j] + 1]
+\* entry (o, g) of the matrix factor j applies: o = output index, g = core index
+OptM(F, tr, o, g) == IF tr THEN E2(F, g, o) ELSE E2(F, o, g)
+OptOut(F, tr) == IF tr THEN F.shape[2] ELSE F.shape[1]
+OptIn(F, tr)  == IF tr THEN F.shape[1] ELSE F.shape[2]
+ValidTuckerOpt(in, skip, tr, modes) ==
+    LET pos == OptPos(in, modes)  N == Len(in.core.shape) IN
+    /\ TuckerPartsOK(in) /\ PosAll(in.fs) /\ PosT(in.core)
+    /\ Len(pos) = Len(in.fs) /\ skip \in -1..(Len(in.fs) - 1)
+    /\ \A j \in 1..Len(pos) : pos[j] \in 1..N
+    /\ \A j, l \in 1..Len(pos) : j # l => pos[j] # pos[l]
+    /\ \A j \in 1..Len(pos) : OptIn(in.fs[j], tr) = in.core.shape[pos[j]]
+TuckerDenseOpt(in, skip, tr, modes) ==
+    LET pos == OptPos(in, modes)  N == Len(in.core.shape)
+        act(k) == {j \in 1..Len(pos) : pos[j] = k /\ j - 1 # skip}          \* the factor acting on mode k, if any
+        fac(k) == CHOOSE j \in act(k) : TRUE
+        osh == [k \in 1..N |-> IF act(k) = {} THEN in.core.shape[k] ELSE OptOut(in.fs[fac(k)], tr)] IN
+    Build(osh, LAMBDA idx :
+        FSum(Len(in.core.data), LAMBDA n :
+            LET g == Unlin(in.core.shape, n - 1) IN
+            in.core.data[n] * FProd(N, LAMBDA k :
+                IF act(k) = {} THEN (IF idx[k] = g[k] THEN 1 ELSE 0) ELSE OptM(in.fs[fac(k)], tr, idx[k], g[k]))))
+\* the same tensor as a chain of mode products with the (possibly transposed) listed factors, skipping one
+TransposeM(F) == Build(<<F.shape[2], F.shape[1]>>, LAMBDA p : E2(F, p[2], p[1]))
+TuckerSeqOpt(in, skip, tr, modes) ==
+    LET pos == OptPos(in, modes)
+        S[j \in 0..Len(pos)] == IF j = 0 THEN in.core
+                                ELSE IF j - 1 = skip THEN S[j - 1]
+                                ELSE ModeDot(S[j - 1], IF tr THEN TransposeM(in.fs[j]) ELSE in.fs[j], pos[j] - 1)
+    IN  S[Len(pos)]
+IdentityM(n) == Build(<<n, n>>, LAMBDA p : IF p[1] = p[2] THEN 1 ELSE 0)
+
 \* superdiagonal core: Tucker(diag(w), Fs) = CP(w, Fs)
 DiagCore(in) ==
     LET N == Len(in.fs)  R == CPRank(in)  sh == [k \in 1..N |-> R] IN
@@ -253,7 +290,19 @@ P2Roots == {<<I, K>> : I \in 2..3, K \in 1..MaxDim}
 \* valid configuration: which field (`bad`), of which factor (`at`), and in which direction (`dl` = +1:
 \* the rank / column count one too large, -1: one too small -- down to rank 0 and boundary rank 0).
 \* Both directions matter: a validator that only looks for an excess (or only for a deficit) is wrong.
-Rec(op, s, r, hw, ls) == [op |-> op, shape |-> s, rank |-> r, hasw |-> hw, lens |-> ls, bad |-> "none", at |-> 0, dl |-> 0]
+Rec(op, s, r, hw, ls) == [op |-> op, shape |-> s, rank |-> r, hasw |-> hw, lens |-> ls, bad |-> "none", at |-> 0, dl |-> 0,
+                          skip |-> -1, tr |-> FALSE, modes |-> <<>>]
+\* Tucker view options (valid family): every skip position, transposed factors, explicit mode lists
+TuckerOptCfgs(s) ==
+    LET N == Len(s)
+        rs == {[q \in 1..N |-> 1 + (q % 2)]} \cup (IF N <= 3 THEN {[q \in 1..N |-> 2 - (q % 2)]} ELSE {})
+        all == [q \in 1..N |-> q - 1] IN
+    UNION {
+         ({[Rec("tucker", s, r, FALSE, <<>>) EXCEPT !.skip = k, !.tr = t] : k \in -1..(N - 1), t \in BOOLEAN} \ {Rec("tucker", s, r, FALSE, <<>>)})
+         \cup {[Rec("tucker", s, r, FALSE, <<>>) EXCEPT !.modes = DropAt(all, d)] : d \in 1..N}        \* a factor for every mode but one
+         \cup {[Rec("tucker", s, r, FALSE, <<>>) EXCEPT !.modes = [q \in 1..N |-> N - q]]}            \* factors listed in reverse mode order
+         \cup {[Rec("tucker", s, r, FALSE, <<>>) EXCEPT !.modes = DropAt(all, 1), !.skip = 0, !.tr = TRUE]}
+       : r \in rs}
 Perturb(base, names, ats, dls) ==
     IF base.op # "p2" /\ Size(base.shape) > MaxBadSize THEN {}
     ELSE {[base EXCEPT !.bad = b, !.at = k, !.dl = d] : b \in names, k \in ats, d \in dls}
@@ -267,7 +316,7 @@ CfgsOf(root) ==
             \cup UNION {Perturb(Rec("cp", s, <<r>>, TRUE, <<>>), {"fcols"}, 1..N, {1, -1}) : r \in 1..2}
             \cup Perturb(Rec("cp", s, <<2>>, TRUE, <<>>), {"wlen"}, {0}, {1, -1})
       [] kd = "tucker" ->
-            {Rec("tucker", s, r, FALSE, <<>>) : r \in RankVecs(N)}
+            {Rec("tucker", s, r, FALSE, <<>>) : r \in RankVecs(N)} \cup TuckerOptCfgs(s)
             \cup Perturb(Rec("tucker", s, [q \in 1..N |-> 1 + (q % 2)], FALSE, <<>>), {"fcols"}, 1..N, {1, -1})
             \cup Perturb(Rec("tucker", s, twos(N), FALSE, <<>>), {"nfactors"}, {0}, {-1})
       [] kd = "tt" ->
@@ -302,7 +351,8 @@ FactorShapes(c) ==
         on(name, cond) == IF b = name /\ cond THEN c.dl ELSE 0
         bump(k) == on("fcols", at = k) + on("chain", at = k) IN
     CASE c.op = "cp"     -> [k \in 1..N |-> <<s[k], r[1] + bump(k)>>]
-      [] c.op = "tucker" -> [k \in 1..(IF b = "nfactors" THEN N - 1 ELSE N) |-> <<s[k], r[k] + bump(k)>>]
+      [] c.op = "tucker" -> IF c.modes # <<>> THEN [j \in 1..Len(c.modes) |-> <<s[c.modes[j] + 1], r[c.modes[j] + 1]>>]
+                            ELSE [k \in 1..(IF b = "nfactors" THEN N - 1 ELSE N) |-> <<s[k], r[k] + bump(k)>>]
       [] c.op \in {"tt", "tr"} ->
             [k \in 1..N |-> <<r[k] + on("bound_first", k = 1) + on("closure_first", k = 1), s[k],
                               r[k + 1] + bump(k) + on("bound_last", k = N) + on("closure", k = N)>>]
@@ -326,7 +376,9 @@ Expand(c) ==
      lens |-> c.lens,
      fshapes |-> FactorShapes(c),
      wlen |-> IF c.hasw THEN c.rank[1] + (IF c.bad = "wlen" THEN c.dl ELSE 0) ELSE 0,
-     coreshape |-> IF c.op = "tucker" THEN c.rank ELSE <<>>,
+     skip |-> c.skip, tr |-> c.tr, modes |-> c.modes,
+     \* with transposed factors the "core" is the tensor the factors project (mode sizes = the factors' row counts)
+     coreshape |-> IF c.op = "tucker" THEN (IF c.tr THEN c.shape ELSE c.rank) ELSE <<>>,
      pshapes |-> PShapes(c),
      pden |-> IF c.bad = "nonorth_half" THEN 2 ELSE 1]
 \* which named class a perturbation belongs to ("none": valid, "other": no obligation)
@@ -361,7 +413,7 @@ GenIn(c) ==
         fs  == [k \in 1..Len(fsh) |-> GenT(fsh[k], k)]
         R   == c.rank[1] IN
     CASE c.op = "cp"     -> [hasw |-> c.hasw, w |-> IF c.hasw THEN GenW(R + (IF c.bad = "wlen" THEN c.dl ELSE 0), 1) ELSE <<>>, fs |-> fs]
-      [] c.op = "tucker" -> [core |-> GenT(c.rank, 9), fs |-> fs]
+      [] c.op = "tucker" -> [core |-> GenT(IF c.tr THEN c.shape ELSE c.rank, 9), fs |-> fs]
       [] c.op \in {"tt", "tr", "ttm"} -> [fs |-> fs]
       [] c.op = "p2"     -> [hasw |-> c.hasw, w |-> IF c.hasw THEN GenW(R, 1) ELSE <<>>, fs |-> fs,
                              ps |-> IF c.bad = "nproj" THEN Tail(GenPs(c)) ELSE GenPs(c),
@@ -375,7 +427,25 @@ ClassOf(kind, in) ==
     ELSE IF WrongBoundary(kind, in) THEN "boundary"
     ELSE IF NonOrthonormal(kind, in) THEN "orth" ELSE "other"
 
+HasOpt(c) == c.skip # -1 \/ c.tr \/ c.modes # <<>>
+OptCfgOK(c) ==      \* Tucker view options: ONE option-dependent dense tensor, cross-checked three ways
+    LET in == GenIn(c)  D == TuckerDenseOpt(in, c.skip, c.tr, c.modes)  N == Len(in.core.shape) IN
+    /\ c.op = "tucker" /\ c.bad = "none"
+    /\ ValidTuckerOpt(in, c.skip, c.tr, c.modes)
+    /\ IsTAny(D) /\ PosT(D)
+    /\ TuckerSeqOpt(in, c.skip, c.tr, c.modes) = D                      \* = chain of mode products over the active factors
+    \* leaving a factor out = applying the identity in its place
+    /\ (c.skip # -1 =>
+          LET j == c.skip + 1  n == OptIn(in.fs[j], c.tr) IN
+          TuckerDenseOpt([in EXCEPT !.fs[j] = IdentityM(n)], -1, c.tr, c.modes) = D)
+    \* transposing the factors by hand and not asking for it is the same thing
+    /\ (c.tr => TuckerDenseOpt([in EXCEPT !.fs = [j \in 1..Len(in.fs) |-> TransposeM(in.fs[j])]], c.skip, FALSE, c.modes) = D)
+    \* the default options give the plain Tucker tensor
+    /\ (~c.tr /\ c.modes = <<>> => TuckerDenseOpt(in, -1, FALSE, <<>>) = TuckerDense(in))
+    /\ \A m \in 0..(N - 1) : Norm2(Unfold(D, m)) = Norm2(D) /\ Len(Vec(D).data) = Size(D.shape)
+
 CfgOK(c) ==
+    IF HasOpt(c) THEN OptCfgOK(c) ELSE
     LET in == GenIn(c)  kd == c.op IN
     /\ ValidCfg(c)
     /\ ClassOf(kd, in) = ClassOfBad(c)                  \* the perturbation table and the predicates agree
